@@ -370,6 +370,19 @@ Proof.
     (eexists; reflexivity).
 Qed.
 
+(* the source as read on this run hands the exception type to __exit__ (Gen/C18Web.v); if that ever stops being the case this
+   lemma - and with it the property theorem C18_flask - no longer checks *)
+Lemma flask_source_passes_type : flask_passes_exc_type = true.
+Proof. reflexivity. Qed.
+
+Theorem flask_now : forall p o x,
+  depth x = 0 -> pend x = [] ->
+  exists t',
+    flask_request exc cfail flask_passes_exc_type (leaf 0 p o) x
+    = (mkst 0 [] (comm x ++ match o with Ok => if p then [] else [0] | Raise _ => [] end) (tr x ++ t'),
+       match o with Ok => if p then Raise cfail else Ok | Raise e => Raise e end).
+Proof. rewrite flask_source_passes_type. exact flask_typed. Qed.
+
 Lemma call0_leaf : forall s p o x,
   s_retry exc s = 0 ->
   call s (fun _ => leaf 0 p o) x = call_stream s [(p, o)] x.
